@@ -66,6 +66,13 @@ class StepCap(BaseException):
 
 # ------------------------------------------------------------------ plan
 def gen_wl_seq(rnd):
+    if rnd.random() < 0.06:
+        # both charge signs and at least 18 uncharged residues: the third branch of the delta-max search
+        n0 = rnd.randrange(18, 24)
+        l = [rnd.choice("KR") for _ in range(rnd.randrange(2, 4))] + [rnd.choice("DE") for _ in range(rnd.randrange(1, 4))] + \
+            [rnd.choice("GSTNQAP") for _ in range(n0)]
+        rnd.shuffle(l)
+        return "".join(l)
     n = rnd.choice((6, 7, 8, 8, 9, 10, 10, 12, 12, 14, 16))
     while True:
         cls = rnd.choice(("polyampholyte", "polyampholyte", "idp", "uniform", "polyelectrolyte", "sty_rich"))
@@ -86,7 +93,7 @@ def gen_plan(streams, tier):
         a = rnd.randrange(0, M)
         b = rnd.randrange(a + 1, M + 1)
     cfg = {"M": M, "a": a, "b": b, "flatchk": rnd.choice((1, 2, 3, 5, 7, 10, 10, 20, 20, 30, 50, 60)),
-           "flatcrit": rnd.choice((0.1, 0.2, 0.3, 0.5, 0.5, 0.7, 0.8, 0.9)),
+           "flatcrit": rnd.choice((0.1, 0.2, 0.3, 0.5, 0.5, 0.7, 0.8, 0.9, 0.0, 1.0)),
            "c": rnd.choice((0.7, 0.6, 0.4, 0.3, 0.3, 0.2, 0.2, 0.1, 0.07, 0.05))}
     if rnd.random() < 0.08:
         cfg["conv_exact_k"] = rnd.choice((1, 2, 2, 3))       # threshold equal to the k-th value of f itself
@@ -118,7 +125,8 @@ def gen_plan(streams, tier):
             "move_rng": rnd.choice(("mt", "tape", "tape", "biased")), "clock_mode": rnd.choice(MODES),
             "accept_policy": rnd.choice(("uniform", "adversarial", "adversarial")),
             "move_weights": [rnd.choice((0, 1, 1, 3)) for _ in range(4)],
-            "step_cap": TIERS[tier]["step_cap"], "fault": fault, "restart": restart, "prelude": prelude}
+            "step_cap": TIERS[tier]["step_cap"], "fault": fault, "restart": restart, "prelude": prelude,
+            "noise": (rnd.randrange(1 << 30) if rnd.random() < 0.15 else None)}
 
 
 def corpus():
@@ -151,6 +159,8 @@ def corpus():
     mk("related_sequence_analysed_first", "GKEGKEKEGS", full, prelude={"seq": "ARDASDRDAT", "how": "dmax_perm"})
     mk("machine_for_related_sequence_first", "GKEGKEKEGS", full, prelude={"seq": "ARDASDRDAT", "how": "machine"})
     mk("threshold_above_e_no_steps", "GKEGKEKEGS", {"M": 5, "a": 0, "b": 5, "flatchk": 4, "flatcrit": 0.5, "c": 1.2})
+    mk("flatness_criterion_zero", "GKEGKEKEGS", {"M": 4, "a": 0, "b": 4, "flatchk": 2, "flatcrit": 0.0, "c": 0.2}, accept_policy="uniform")
+    mk("neutral_rich_24mer", "GSTKNQAGSTENQAGSTKNQAGSD", {"M": 3, "a": 0, "b": 3, "flatchk": 10, "flatcrit": 0.2, "c": 0.4}, step_cap=300)
     mk("seam_only_mode", "GKEGKEKEGS", full, no_hook=True)
     mk("uniform_policy_many_iterations", "KEKEGG", {"M": 3, "a": 0, "b": 3, "flatchk": 30, "flatcrit": 0.2, "c": 0.05}, accept_policy="uniform",
        move_weights=[1, 1, 0, 0])
@@ -850,6 +860,9 @@ def _execute(plan, ctx, fs, wl, seqmod, permmod, Sequence, SequenceException, cl
     fault = plan.get("fault", {"kind": "none"})
     first_failed = False
     machine_box = [None]
+    if plan.get("noise") is not None:
+        from ..noise import noise_prelude
+        noise_prelude(ctx, plan["noise"])
     pre = plan.get("prelude")
     if pre:
         ctx.probe("prelude_on_related_sequence")
